@@ -1389,6 +1389,8 @@ def expand_module(tree: ast.Module, modname: str) -> Tuple[int, List[str]]:
             d_.body = fold_constant_tests(d_.body) or [ast.Pass()]
             for b_ in d_.body:
                 ast.fix_missing_locations(b_)
+    if n:
+        ex.sites = ex.sites + sink_single_use_temps(tree, modname)
     cs = collapse_container_subclasses(tree, known, ex) if n else []
     ea = eafp_lookups(tree, modname)
     fl = single_use_flags(tree, modname)
@@ -1604,6 +1606,67 @@ def run_init_subclass(tree: ast.Module, known: Set[str]) -> List[str]:
         base.body = [m for m in base.body if m is not hook] or [ast.Pass()]
         sites.append(f"{base.name}.__init_subclass__ run on the class keywords of {len([1 for _, st, _ in plans if st])} subclass(es); stores written as class attributes")
     return sites
+
+
+def sink_single_use_temps(tree: ast.Module, modname: str) -> List[str]:
+    """After helper expansion: an if-chain every arm of which ends in `_argN = V` (or leaves by raise / return), followed at
+    once by the only use `recv.meth(_argN)`, is read with the use inside each arm (`recv.meth(V)`); `recv.extend([a])`
+    is then `recv.append(a)`."""
+    out: List[str] = []
+    for d in changed_functions(tree, modname):
+        done = [0]
+
+        def arms(node: ast.If):
+            yield node.body
+            if len(node.orelse) == 1 and isinstance(node.orelse[0], ast.If):
+                yield from arms(node.orelse[0])
+            else:
+                yield node.orelse
+
+        def block(stmts: List[ast.stmt]) -> List[ast.stmt]:
+            res: List[ast.stmt] = []
+            i = 0
+            while i < len(stmts):
+                st = stmts[i]
+                nxt = stmts[i + 1] if i + 1 < len(stmts) else None
+                if isinstance(st, ast.If) and isinstance(nxt, ast.Expr) and isinstance(nxt.value, ast.Call) and isinstance(nxt.value.func, ast.Attribute) and _pure(nxt.value.func.value) \
+                        and len(nxt.value.args) == 1 and not nxt.value.keywords and isinstance(nxt.value.args[0], ast.Name) and nxt.value.args[0].id.startswith("_arg"):
+                    tmp = nxt.value.args[0].id
+                    uses = sum(1 for n in ast.walk(d) if isinstance(n, ast.Name) and n.id == tmp and isinstance(n.ctx, ast.Load))
+                    al = list(arms(st))
+                    ok = uses == 1 and all(a and (isinstance(a[-1], (ast.Raise, ast.Return)) or (isinstance(a[-1], ast.Assign) and len(a[-1].targets) == 1 and isinstance(a[-1].targets[0], ast.Name)
+                                                                                                   and a[-1].targets[0].id == tmp)) for a in al)
+                    stores = sum(1 for n in ast.walk(d) if isinstance(n, ast.Name) and n.id == tmp and isinstance(n.ctx, ast.Store))
+                    if ok and stores == sum(1 for a in al if isinstance(a[-1], ast.Assign)):
+                        for a in al:
+                            if isinstance(a[-1], ast.Assign):
+                                call = copy.deepcopy(nxt)
+                                call.value.args[0] = a[-1].value
+                                v = a[-1].value
+                                if call.value.func.attr == "extend" and isinstance(v, ast.List) and len(v.elts) == 1 and not isinstance(v.elts[0], ast.Starred):
+                                    call.value.func.attr = "append"
+                                    call.value.args[0] = v.elts[0]
+                                ast.copy_location(call, a[-1])
+                                ast.fix_missing_locations(call)
+                                a[-1] = call
+                        done[0] += 1
+                        res.append(st)
+                        i += 2
+                        continue
+                for fld in ("body", "orelse", "finalbody"):
+                    v = getattr(st, fld, None)
+                    if isinstance(v, list) and v and isinstance(v[0], ast.stmt) and not isinstance(st, (ast.FunctionDef, ast.AsyncFunctionDef, ast.ClassDef)):
+                        setattr(st, fld, block(v))
+                for h in getattr(st, "handlers", []) or []:
+                    h.body = block(h.body)
+                res.append(st)
+                i += 1
+            return res
+
+        d.body = block(d.body)
+        if done[0]:
+            out.append(f"{d.name}: {done[0]} single-use result(s) consumed inside the arms that produce them")
+    return out
 
 
 def canonical_spellings(tree: ast.Module, modname: str) -> List[str]:
@@ -3133,6 +3196,10 @@ def lower_expressions(tree: ast.Module, modname: str) -> List[str]:
        All exact: the generator is consumed up to its first element only, a walrus in leftmost position is evaluated
        before anything else in its statement."""
     out: List[str] = []
+    kf_ = known_functions()
+    known_ = kf_.get(modname, set()) if kf_ else set()
+    # module-level functions the rules never saw: candidates for expansion in place
+    new_funcs = {f.name for f in tree.body if isinstance(f, ast.FunctionDef) and f.name not in known_} if kf_ else set()
     for d in changed_functions(tree, modname):
         names_in_d = {n.id for n in ast.walk(d) if isinstance(n, ast.Name)} | {a.arg for a in ast.walk(d) if isinstance(a, ast.arg)}
         counter = [0]
@@ -3291,6 +3358,18 @@ def lower_expressions(tree: ast.Module, modname: str) -> List[str]:
                     ast.copy_location(node, st)
                     ast.fix_missing_locations(node)
                     st = node
+                if isinstance(st, ast.Expr) and isinstance(st.value, ast.Call) and isinstance(st.value.func, ast.Attribute) and _pure(st.value.func.value) \
+                        and len(st.value.args) == 1 and not st.value.keywords and isinstance(st.value.args[0], ast.Call) and not st.value.args[0].keywords \
+                        and isinstance(st.value.args[0].func, ast.Name) and st.value.args[0].func.id in new_funcs and all(_pure(a) for a in st.value.args[0].args):
+                    counter[0] += 1
+                    tmp = f"_arg{counter[0]}"
+                    pre = ast.Assign(targets=[ast.Name(id=tmp, ctx=ast.Store())], value=st.value.args[0])
+                    st.value.args[0] = ast.Name(id=tmp, ctx=ast.Load())
+                    ast.copy_location(pre, st)
+                    ast.fix_missing_locations(pre)
+                    ast.fix_missing_locations(st)
+                    res.append(pre)
+                    notes.append("helper call in argument position bound to a local first")
                 ln = lower_next(st)
                 if ln is not None:
                     fz = fuse_found(ln, stmts[idx + 1] if idx + 1 < len(stmts) else None)
